@@ -1,4 +1,4 @@
-"""Witness (run by hand): six ways in which a generated stub uses names it does not provide; prints which of them the
+"""Witness (run by hand): seven ways in which a generated stub uses names it does not provide; prints which of them the
 tree it runs against still shows (the first four were repaired in /repo, see known_findings.json `fixed`).
     cd /verif/witness && PYTHONPATH=/repo /venv/bin/python c11_stub_names.py   (exit 1 while any is present)
 Builds throw-away modules utils / my.utils / foo / barfoo / mytyping / target in a temp dir."""
@@ -8,9 +8,10 @@ def w(path, src):
     p = os.path.join(d, path); os.makedirs(os.path.dirname(p), exist_ok=True); open(p, "w").write(textwrap.dedent(src))
 w("utils.py", "class A: pass\n"); w("my/__init__.py", ""); w("my/utils.py", "class B: pass\nclass A: pass\n")
 w("foo.py", "class Baz: pass\n"); w("barfoo.py", "class Qux: pass\n"); w("mytyping.py", "class X: pass\n")
+w("barmod.py", "class foo:\n    class Inner: pass\n")
 w("target.py", "class NoneTypeHolder: pass\ndef f(a): return a\ndef g(foo): return foo\n")
 sys.path.insert(0, d)
-import utils, my.utils, foo, barfoo, mytyping, target
+import utils, my.utils, foo, barfoo, mytyping, target, barmod
 from typing import Dict, List, Tuple
 from monkeytype.tracing import CallTrace
 from monkeytype.typing import get_type
@@ -24,6 +25,7 @@ cases = {
     "module prefix stripping (foo / barfoo)": (stub(Tuple[foo.Baz, barfoo.Qux]), "barQux"),
     "'typing.' replacement (module mytyping)": (stub(List[mytyping.X]), "myX"),
     "'NoneType' replacement (class NoneTypeHolder)": (stub(List[target.NoneTypeHolder]), "NoneHolder"),
+    "class nested in a class named like another imported module (barmod.foo.Inner next to foo.Baz)": (stub(Tuple[barmod.foo.Inner, foo.Baz]), "Tuple[Inner"),
     "same-named classes of two modules": (stub(Tuple[utils.A, my.utils.A]), "Tuple[A, A]"),
     "fields of a generated TypedDict class": (stub(get_type({"k": [foo.Baz()]}, 5), target.g, 5), "List[foo.Baz]"),
 }
